@@ -51,15 +51,18 @@ BOUNDS = {
              "objects, symbolic geometry), preload on/off. Every inversion case is a two-step history: two inversions built from the SAME dataset "
              "object (and, in (i), two direct calls of the data-vector util with the same caller-owned arrays); T, D, F are checked both times and "
              "the dataset's / caller's data, noise and matrix arrays must still hold their original terms afterwards.",
-    "thorough": "as quick with: kernels up to P=4, K=3, S=3; class: every mask of 2x3 and 3x2 (concrete geometries 0-3) and of 2x3 (symbolic geometry, K=3, "
-                "scale pairs (0.5,2.0) and (0.25,0.25)); inversion (i) up to K=4 visibilities and up to 4 parameters in two linear objects, "
-                "(ii) all masks of 2x2, K=3, 2+1 parameters, with and without regularization.",
+    "thorough": "same obligations as quick with: kernels (symbolic geometry) for (P,K,S) in (2,2,2),(3,2,2),(3,3,3),(4,3,2),(4,2,3),(4,3,3),(5,2,2),(3,4,2),(5,3,2) and the 3 concrete "
+                "kernel geometries; class, concrete geometry: every mask of 2x3 and 3x2 for the 4 geometries and every mask of 2x4 (255 masks, up to 8 pixels) for geometry 0 "
+                "(preload on) and geometry 3 (preload off), else preload on and off; class, symbolic geometry (K=3 baselines, 2 columns): every mask of 2x3 with scale pairs "
+                "(0.5,2.0), (0.25,0.25), (3.0,1.0) and of 3x2 with (0.5,2.0), preload on/off; inversion (i) stand-in transformer: (K,S1,S2) in (2,2,1),(3,1,0),(3,2,2),(4,2,1),"
+                "(3,3,1),(4,2,2),(5,1,1), with and without regularization; (ii) real TransformerDFT: all masks of 2x2 with K=3, parameters 2+1 (scales (0.5,2.0), with / without "
+                "regularization) and 1+2 (scales (0.25,0.25)), and all masks of 2x3 with K=2, parameters 1+1; preload on/off; all inversion cases are two-step histories.",
 }
 OUTSIDE = [
     "TransformerNUFFT, the interferometer w-tilde and PyLops (linear-operator) inversions (external library / stubbed code absent)",
     "symbolic pixel scales in the class-level cases (Mask2D divides the origin by the pixel scale, which makes the trigonometric arguments "
     "non-polynomial; a fixed set of dyadic / anisotropic scale pairs is used instead - the scalar geometry is C02's subject)",
-    "more than 6 image pixels, 4 baselines, 4 linear parameters",
+    "more than 8 image pixels (6 with symbolic geometry), 5 baselines, 4 linear parameters",
     "float64 rounding of the sums (exact real arithmetic; the concrete-geometry obligations carry a 1e-9 relative tolerance)",
     "Visibilities built from [K,2] float arrays or .fits files (input conversion, not the transform)",
 ]
